@@ -21,7 +21,7 @@ Inductive case :=
 | CFree (n : nat) (kinds : list kind) (req : request) (seen : list request) (o : result)
 (* the caller's own request after the call (attempts that write to the maps of the request
    THEY were handed must not be visible to the caller): everything but the body reader *)
-| CCaller (req after : request)
+| CCaller (n : nat) (req after : request)
 (* a schedule the harness could not impose on this machine (budget elapsed before all
    messages were released, six times in a row): nothing was observed, nothing is judged *)
 | CSkipped (why : string).
@@ -46,8 +46,15 @@ Definition scenario_ok (n : nat) (kinds : list kind) (order : list nat) (parent 
 Definition resp_class (r : option response) : nat :=
   match r with None => 0 | Some x => if r_complete x then 2 else 1 end.
 Definition is_some {A} (x : option A) : bool := match x with Some _ => true | None => false end.
-Definition result_agrees (evs : list ev) (m o : result) : bool :=
-  Nat.eqb (resp_class (fst m)) (resp_class (fst o)) &&
+(* a complete response is compared exactly: under the imposed arrival order the model names
+   the winner (C05_which_complete: the first complete one) *)
+Definition complete_same (m o : option response) : bool :=
+  match m, o with
+  | Some x, Some y => if r_complete x then resp_eqb x y else true
+  | _, _ => true
+  end.
+Definition result_agrees (exact : bool) (evs : list ev) (m o : result) : bool :=
+  Nat.eqb (resp_class (fst m)) (resp_class (fst o)) && (negb exact || complete_same (fst m) (fst o)) &&
   Bool.eqb (is_some (snd m)) (is_some (snd o)) &&
   match fst o with None => true | Some r => res_in r evs end &&
   match snd o with None => true | Some e => err_in e evs end.
@@ -64,13 +71,13 @@ Fixpoint mset_eqb {A} (f : A -> A -> bool) (a b : list A) : bool :=
   | x :: r => match remove_first f x b with Some b' => mset_eqb f r b' | None => false end
   end.
 
-Definition check_run (n : nat) (kinds : list kind) (order : list nat) (parent : option nat)
+Definition check_run (exact : bool) (n : nat) (kinds : list kind) (order : list nat) (parent : option nat)
            (req : request) (seen : list request) (o : result) : bool * bool :=
       let evs := match parent with
                  | None => events kinds order
                  | Some k => events_parent n kinds order k end in
       (scenario_ok n kinds order parent &&
-       result_agrees evs (run_scenario n kinds order parent) o &&
+       result_agrees exact evs (run_scenario n kinds order parent) o &&
        mset_eqb req_eqb (spawn n req) seen,
        match parent with
        | None => spec_b (produced kinds) o
@@ -79,12 +86,13 @@ Definition check_run (n : nat) (kinds : list kind) (order : list nat) (parent : 
 
 Definition check_case (c : case) : bool * bool :=
   match c with
-  | CRun n kinds order parent req seen o => check_run n kinds order parent req seen o
+  | CRun n kinds order parent req seen o => check_run true n kinds order parent req seen o
   | CFree n kinds req seen o =>
-      let '(a, b) := check_run n kinds (nonsilent_slots kinds) None req seen o in
+      let '(a, b) := check_run false n kinds (nonsilent_slots kinds) None req seen o in
       (a && Nat.eqb (silent_count kinds) 0, b)
-  | CCaller req after =>
-      let ok := req_eqb (with_body after None) (with_body req None) in (ok, ok)
+  | CCaller n req after =>
+      (req_eqb (with_body after None) (with_body (caller_after n req) None),
+       req_eqb (with_body after None) (with_body req None))
   | CSkipped _ => (true, true)
   end.
 
